@@ -19,7 +19,7 @@ from vf import prog, sem, refconds
 from vf.checks import c04
 
 PROP = "C17"
-CASES = {"quick": 5000, "thorough": 60000}
+CASES = {"quick": 5000, "thorough": 250000}
 RULE = ("sample histories of vf/checks/c04.py (1-6 events, all 24 classes, named / unnamed), solved with a ball "
         "normalisation.  Non-trivial = finite solve, >= 3 samples and a condition that is not symmetric in the pair; "
         "distinct by case JSON.")
